@@ -795,6 +795,8 @@ class Engine:
                             pos.extend(v.items)
                         elif isinstance(f, VFunc) and f.kind == "builtin" and f.a == "chain":
                             pos.append(VConc(("starred", v)))      # chain(*generator): flattened by the builtin model
+                        elif isinstance(f, VFunc) and f.kind == "abstract" and isinstance(v, VObj) and v.kind == "list":
+                            pos.append(VConc(("starred", v)))      # abstract(*list): the call_abstract hook receives the list itself
                         else:
                             raise Unsupported("star-args of non-tuple")
                     else:
